@@ -304,6 +304,35 @@ theorem trans_shape' (O N : Nat) (src : Nat → Nat → R) (T : Mat R) :
   intro o T
   exact loop_mupd_shape N (fun _ _ => o) (fun n _ => n) (fun n _ => src o n) T
 
+/-! ### fresh-result elementwise loops (round four) -/
+
+omit [CommRing R] in
+theorem ewSemVec_get [Add R] [Sub R] [Mul R] [Neg R] [Div R]
+    (s : EwSig) (n : Nat) (a b : Nat → R) (k : R) (t : Vec R) (i : Nat) :
+    (ewSemVec s n a b k t).get i = if i < n then ewVal s (a i) (b i) k else t.get i := by
+  unfold ewSemVec
+  exact diag_loop n (fun i _ => ewVal s (a i) (b i) k) t i
+
+omit [CommRing R] in
+theorem ewSemVec_n [Add R] [Sub R] [Mul R] [Neg R] [Div R]
+    (s : EwSig) (n : Nat) (a b : Nat → R) (k : R) (t : Vec R) : (ewSemVec s n a b k t).n = t.n := by
+  unfold ewSemVec
+  exact loop_upd_n n (fun i _ => i) (fun i _ => ewVal s (a i) (b i) k) t
+
+omit [CommRing R] in
+theorem ewSemMat_e [Add R] [Sub R] [Mul R] [Neg R] [Div R]
+    (s : EwSig) (rows cols : Nat) (A B : Nat → Nat → R) (k : R) (T : Mat R) (i j : Nat) :
+    (ewSemMat s rows cols A B k T).e i j = if i < rows ∧ j < cols then ewVal s (A i j) (B i j) k else T.e i j := by
+  unfold ewSemMat
+  exact trans_nest' rows cols (fun i j => ewVal s (A i j) (B i j) k) T i j
+
+omit [CommRing R] in
+theorem ewSemMat_shape [Add R] [Sub R] [Mul R] [Neg R] [Div R]
+    (s : EwSig) (rows cols : Nat) (A B : Nat → Nat → R) (k : R) (T : Mat R) :
+    (ewSemMat s rows cols A B k T).rows = T.rows ∧ (ewSemMat s rows cols A B k T).cols = T.cols := by
+  unfold ewSemMat
+  exact trans_shape' rows cols (fun i j => ewVal s (A i j) (B i j) k) T
+
 /-- the two ways to write the transposition nest `AT[j][i] = (*this)[i][j]`: rows in the outer or in the inner loop -/
 def TransSig.rowsOuter : TransSig :=
   { extO := .rows, extI := .cols, tr := .inner, tc := .outer, sr := .outer, sc := .inner }
